@@ -87,6 +87,9 @@ func (m *Mutex) TryLock() bool {
 		c = 1
 	}
 	s.event(evTryLock+c<<16, &m.obj, true)
+	if ok {
+		s.hbAcquire(&m.obj)
+	}
 	return ok
 }
 
